@@ -251,8 +251,23 @@ impl Meta {
             0 => {
                 // other numbering
                 let mut q = p.clone();
-                q.number(if rng.chance(1, 4) { 0 } else { rng.range(0, 300) as u16 }, *rng.pick(&[1u16, 7, 10, 50]));
-                (gen::render(&q), "renumbered-layout")
+                let step = *rng.pick(&[1u16, 7, 10, 50]);
+                let n = q.lines.len() as u32;
+                if rng.chance(1, 5) && n > 0 && (n - 1) * (step as u32) < 60_000 {
+                    // up to the largest line number
+                    q.number((65_529 - (n - 1) * step as u32) as u16, step);
+                } else {
+                    q.number(if rng.chance(1, 4) { 0 } else { rng.range(0, 300) as u16 }, step);
+                }
+                let mut v = gen::render(&q);
+                if !trace && rng.chance(1, 6) && q.lines.first().map(|l| q.num(l.label)).unwrap_or(0) > 30 {
+                    // several thousand instructions in front of the program (lines 1..): every address in it moves
+                    let filler: Vec<String> = (0..rng.range(9, 14)).map(|k| format!("{} Y9={}", k + 1, vec!["1"; 230].join("+"))).collect();
+                    let mut w = filler;
+                    w.append(&mut v);
+                    v = w;
+                }
+                (v, "renumbered-layout")
             }
             1 => {
                 // remark lines, empty statements and unreachable code in the gaps
